@@ -50,7 +50,10 @@ type env struct {
 	alt   map[string]*altID // identities with other key types, registered under dom1 as nodes 4 (rsa), 5 (ed25519), 6 (p384)
 	pki   *netlib.PKI
 	ids   []*ident // registered: 1 (dom1), 2 (dom1), 3 (dom2)
-	dflt  *ident   // registered as node 7 under the default (empty) domain only
+	dflt  *ident   // registered as node 7 under the default (empty) domain and as node 9 under "beta"
+	bndl  *ident   // node 10 (dom1), registered with a PEM bundle: its own certificate followed by tail's
+	tail  *ident   // holder of the key of the bundle's trailing certificate (not registered itself)
+	bcert []byte   // the bundle
 	unreg *ident
 	lis   *netlib.Listener
 	col   *netlib.Collector
@@ -76,6 +79,13 @@ func newEnv() *env {
 	dp, _ := pki.CA.NewClientCertKeyPair()
 	e.dflt = &ident{id: 7, domain: "", pair: dp}
 	p2id[netlib.LookupKey("", dp.Cert)] = 7
+	p2id[netlib.LookupKey("beta", dp.Cert)] = 9
+	bp, _ := pki.CA.NewClientCertKeyPair()
+	tp, _ := pki.CA.NewClientCertKeyPair()
+	e.bndl = &ident{id: 10, domain: "dom1", pair: bp}
+	e.tail = &ident{id: 98, domain: "dom1", pair: tp}
+	e.bcert = append(append([]byte(nil), bp.Cert...), tp.Cert...)
+	p2id[netlib.LookupKey("dom1", e.bcert)] = 10
 	up, _ := pki.CA.NewClientCertKeyPair()
 	e.unreg = &ident{id: 99, domain: "dom1", pair: up}
 	e.alt = map[string]*altID{}
@@ -254,6 +264,42 @@ func variants(thorough bool) []variant {
 			return frame(h), 0, ""
 		})
 	}
+	// the same identity registered under two domains: the claimed domain is covered by the signature
+	add("control", "two-domain-identity-signs-beta", func(e *env, b, ob, of []byte) ([]byte, uint16, string) {
+		h := validHandshake(e.dflt, b)
+		h.Domain = "beta"
+		netlib.SignHandshake(&h, e.dflt.key())
+		return frame(h), 9, "beta"
+	})
+	add("domain", "two-domain-identity-signed-for-default-claims-beta", func(e *env, b, ob, of []byte) ([]byte, uint16, string) {
+		h := validHandshake(e.dflt, b)
+		h.Domain = "beta"
+		return frame(h), 0, ""
+	})
+	add("domain", "two-domain-identity-signed-for-beta-claims-default", func(e *env, b, ob, of []byte) ([]byte, uint16, string) {
+		h := validHandshake(e.dflt, b)
+		h.Domain = "beta"
+		netlib.SignHandshake(&h, e.dflt.key())
+		h.Domain = ""
+		return frame(h), 0, ""
+	})
+	// an identity registered as a PEM bundle: only the key of its FIRST certificate proves it
+	add("control", "bundle-identity-signed-by-first-certificates-key", func(e *env, b, ob, of []byte) ([]byte, uint16, string) {
+		h := comm.Handshake{Domain: "dom1", TLSBinding: append([]byte(nil), b...), Identity: append([]byte(nil), e.bcert...), Timestamp: now().Unix()}
+		netlib.SignHandshake(&h, e.bndl.key())
+		return frame(h), 10, "dom1"
+	})
+	add("substitution", "bundle-identity-signed-by-trailing-certificates-key", func(e *env, b, ob, of []byte) ([]byte, uint16, string) {
+		h := comm.Handshake{Domain: "dom1", TLSBinding: append([]byte(nil), b...), Identity: append([]byte(nil), e.bcert...), Timestamp: now().Unix()}
+		netlib.SignHandshake(&h, e.tail.key())
+		return frame(h), 0, ""
+	})
+	add("substitution", "bundle-reordered-signed-by-trailing-certificates-key", func(e *env, b, ob, of []byte) ([]byte, uint16, string) {
+		id := append(append([]byte(nil), e.tail.pair.Cert...), e.bndl.pair.Cert...)
+		h := comm.Handshake{Domain: "dom1", TLSBinding: append([]byte(nil), b...), Identity: id, Timestamp: now().Unix()}
+		netlib.SignHandshake(&h, e.tail.key())
+		return frame(h), 0, ""
+	})
 	// --- substitutions
 	add("substitution", "identity-of-party-2-signature-of-party-1", func(e *env, b, ob, of []byte) ([]byte, uint16, string) {
 		h := validHandshake(e.ids[0], b)
